@@ -7,7 +7,8 @@ A  theorems in Props/C07 (coordinate grading: mu*span and span ratios have degre
    mutation->edge map and spans x c, derived from the sweep cluster committed correctness theorem).
 B  the executable models (Driver/Scale.lean, Float) against the real code, at base AND rescaled
    coordinates: Poisson parameters recorded by rebinding scipy.stats.poisson, spans / span fractions,
-   mixture_expect_and_var, edge_likelihoods; count_mutations compared across scales on the real function.
+   mixture_expect_and_var, edge_likelihoods, SpansBySamples.second_pass (rebound, inputs with unary nodes);
+   count_mutations compared across scales on the real function.
 C  metamorphic oracle on tsdate.date: sequence length, edge ends, site positions x c and mutation_rate / c
    for c in {4, 0.37, 1e-3, 1e3}, all three methods, outputs equal within the tolerances of DESIGN.md §2.2.
 """
@@ -18,7 +19,7 @@ from .. import common, gen, scale_corr as sc
 from ..common import Result, Violation
 
 META = dict(
-    level='Lean theorems, for every c != 0 (c > 0 where positions are compared) over any linear ordered field: every Poisson parameter dt*mu*span, every span fraction and root fraction, the span-weighted mixture prior, hence the whole unit-free view of a discrete run and its time grid are unchanged, so posterior means/variances of inside_outside and the maximization estimates are identical for ANY recursion reading only that view; `_count_mutations` (plain variant, over the sweep cluster model and its committed correctness theorem) returns the same counts and mutation-to-edge map and spans x c on valid tables, edge likelihoods (count, span*mu) of the variational method are therefore unchanged, hence so is any function of them (EP, rescaling, constraint). Partial: the size-biased count_mutations variant and SpansBySamples are not covered by a theorem here (their coordinate behaviour is checked on the real functions across scales); floating point by tolerance only. Models tied to the code bit-for-bit at Float at base and rescaled coordinates; date() checked metamorphically over 4 coordinate scale factors.',
+    level='Lean theorems, for every c != 0 (c > 0 where positions are compared) over any linear ordered field: every Poisson parameter dt*mu*span, every span fraction and root fraction, the span-weighted mixture prior, hence the whole unit-free view of a discrete run and its time grid are unchanged, so posterior means/variances of inside_outside and the maximization estimates are identical for ANY recursion reading only that view; `_count_mutations` (plain variant, over the sweep cluster model and its committed correctness theorem) returns the same counts and mutation-to-edge map and spans x c on valid tables, edge likelihoods (count, span*mu) of the variational method are therefore unchanged, hence so is any function of them (EP, rescaling, constraint). the second pass of SpansBySamples (spans a skipped unary node borrows from a dated ancestor, allow_unary=True) is homogeneous of degree one, so the mixture prior built from it is unchanged (second_pass_weights_invariant). Partial: the size-biased count_mutations variant and the first and third passes of SpansBySamples (tskit tree iteration) are not covered by a theorem here (their coordinate behaviour is checked on the real functions across scales); floating point by tolerance only. Models tied to the code bit-for-bit at Float at base and rescaled coordinates, including the real second pass on inputs with unary nodes (hand-built two-tree shape and simplify(keep_unary=True) subsets; the evidence reports how many reach it); date() checked metamorphically over 4 coordinate scale factors.',
     note='Lean kernel + {propext, Classical.choice, Quot.sound}; exact arithmetic; sampled correspondence; scipy pmf/cdf uninterpreted; imports the sweep cluster CountMut model and countWith_correct (tied to the real kernel by C24)',
     technique='second grading of the degree discipline (coordinate degree) + bit-exact model/code correspondence + metamorphic oracle',
     ref='§3 C07',
@@ -28,7 +29,7 @@ LEAN_BUILD = ["TsdateVerif.Model.Proto", "TsdateVerif.Model.Scale", "TsdateVerif
 ASSUMPTIONS = [
     "theorems are about exact arithmetic; floating-point agreement by tolerance (discrete 1e-9, variational 1e-6 means / 1e-5 variances)",
     "the Poisson pmf, prior cdfs and the inside/outside/maximization/EP recursions are arbitrary functions of arguments proved unchanged",
-    "size-biased count_mutations and SpansBySamples (tskit tree iteration) are outside the theorems; their coordinate behaviour (same counts and mutation-to-edge map, spans x c) is checked on the real functions across scales",
+    "size-biased count_mutations and the first/third pass of SpansBySamples (tskit tree iteration) are outside the theorems; the tree walk of the second pass (which ancestor, which tree) is an input of the model; their coordinate behaviour (same counts and mutation-to-edge map, spans x c) is checked on the real functions across scales",
 ]
 
 def classify_raise(r):
@@ -56,16 +57,27 @@ def count_mutations_piece(ts, ts_c, c, res, stats, replay):
                                             f"count_mutations({name}): spans at c={c!r} differ from c x spans by rel. {e:.3g}", replay))
 
 
-SCHEDULE = [("variational_gamma", False), ("inside_outside", None), ("maximization", None),
-            ("variational_gamma", True), ("inside_outside", None), ("variational_gamma", None)]
+# (method, historical samples, unary flavour).  Unary inputs (dated with allow_unary=True) are the only way into
+# SpansBySamples.second_pass / third_pass; "two_tree" is the hand-built shape that reaches the second pass, "subset" a
+# simplify(keep_unary=True) of a subset of samples, drawn until the second pass assigns a node (budgeted).
+SCHEDULE = [("variational_gamma", False, None), ("inside_outside", None, "two_tree"), ("maximization", None, None),
+            ("variational_gamma", True, None), ("inside_outside", None, None), ("maximization", None, "two_tree"),
+            ("inside_outside", None, "subset"), ("variational_gamma", None, "two_tree"), ("maximization", None, "subset"),
+            ("inside_outside", None, None), ("variational_gamma", None, "subset"), ("maximization", None, None)]
 
 
 def one_case(ctx, rng, res, stats, batch, checks, scales, corr=True, idx=None):
     if idx is None:
-        method, hist = str(rng.choice(["variational_gamma", "inside_outside", "maximization"])), None
+        method, hist, unary = str(rng.choice(["variational_gamma", "inside_outside", "maximization"])), None, None
     else:
-        method, hist = SCHEDULE[idx % len(SCHEDULE)]
-    ts, info = sc.draw_ts(rng, method, hist)
+        method, hist, unary = SCHEDULE[idx % len(SCHEDULE)]
+    ts, info = sc.draw_ts(rng, method, hist, unary=unary)
+    if unary:
+        stats["unary_inputs"][unary] = stats["unary_inputs"].get(unary, 0) + 1
+        # the second pass of SpansBySamples on this input and on its rescaled version: model vs code
+        for tag, tsx in (("base", ts), (f"c={scales[0]!r}", sc.scale_coords_ts(ts, scales[0]))):
+            ch, _ = sc.corr_second_pass(tsx, batch, f"second_pass:{tag}", stats)
+            checks += [(x, None) for x in ch]
     kw = sc.explicit_defaults(sc.draw_options(rng, ts, info, method))
     discrete = method != "variational_gamma"
     stats["methods"][method] = stats["methods"].get(method, 0) + 1
@@ -182,7 +194,7 @@ def corpus(ctx, res, stats):
 
 
 def new_stats():
-    return dict(methods={}, raised={}, scales={}, max_relerr={}, driver_cases={})
+    return dict(methods={}, raised={}, scales={}, max_relerr={}, driver_cases={}, unary_inputs={})
 
 
 def finish_batch(res, stats, batch, checks):
